@@ -31,6 +31,8 @@ PIPES = {
     "map_buffer_sliding": (lambda s, T: s.map(inc).buffer(1).sliding_window(2), lambda s: s.map(inc).sliding_window(2)),
     "rate_map_buffer": (lambda s, T: s.rate_limit(1).map(inc).buffer(2), lambda s: s.map(inc)),
     "buffer_mapasync": (lambda s, T: s.buffer(1).map_async(T.fn), lambda s: s.map(lambda x: x)),
+    # the map_async node is stopped and started again (op Z) while elements are being evaluated / consumed
+    "mapasync_restart": (lambda s, T: T.keep(s.map_async(T.fn, parallelism=2)), lambda s: s.map(lambda x: x)),
     "mapasync_partition": (lambda s, T: s.map_async(T.fn, parallelism=2).partition(2), lambda s: s.partition(2)),
     "buffer_unique": (lambda s, T: s.buffer(2).unique(key=mod2), lambda s: s.unique(key=mod2)),
     "zip_buffer": (lambda s, T: streamz.zip(s.buffer(1), s.map(inc)), lambda s: streamz.zip(s, s.map(inc))),
@@ -53,6 +55,10 @@ class Tasks:
     def __init__(self, log):
         self.log = log
         self.pending = []
+
+    def keep(self, node):
+        self.node = node
+        return node
 
     async def fn(self, x):
         f = Future()
@@ -117,6 +123,12 @@ def run(name, n, schedule, cons):
                 idle[0] = 0
             elif c == "x" and log.pending:
                 loop.do(aprobe.fail_delivery, log, min(log.pending))
+                idle[0] = 0
+            elif c == "Z" and getattr(T, "node", None) is not None and getattr(T.node, "work_task", None):
+                def restart():
+                    T.node.stop()
+                    T.node.start()
+                loop.do(restart)
                 idle[0] = 0
             elif c == "f":
                 live = [f for f in T.pending if not f.done()]
@@ -199,7 +211,7 @@ def main():
         for cons in ("future", "sync", "coro"):
             for _ in range(per if cons == "future" else per // 4):
                 n = rng.randint(3, 5)
-                sched = [rng.choice("eessssdddDaaffF") for _ in range(rng.randint(6, 24))]
+                sched = [rng.choice("eessssdddDaaffF" + ("ZZ" if name == "mapasync_restart" else "")) for _ in range(rng.randint(6, 24))]
                 if cons != "sync" and rng.random() < 0.3:
                     # one consumer failure somewhere in the second half
                     sched.insert(rng.randint(len(sched) // 2, len(sched)), "x")
